@@ -46,6 +46,32 @@ theorem setMatch_refines (stepsOf : Heap → List (Step Val)) (root : Val) (j jv
     · simp at hset
     · split at hset <;> simp at hset
 
+/-- the same when the data source is a `Match` of the document (`set_match(expr, v, match)`):
+the target may lie below the match or — after parent steps — above it -/
+theorem setMatch_from_match_refines (stepsOf : Heap → List (Step Val)) (root : Val) (sm : MNode Val) (j jv : J) (n : Nat)
+    (h h' : Heap) (v : Val) (m : MNode Val) (hi : DocInv h root j) (hsm : Gen (hview h) root sm)
+    (hv : UnfJ h jv v) (hvn : (fpJ h jv v).Nodup) (hfresh : ∀ x ∈ fpJ h jv v, x ∉ fpJ h j root)
+    (hset : setMatchN stepsOf (.nested sm) false (n+1) h v = (h', .ok m)) :
+    ∃ pm nm j', m = .child pm nm v ∧ J.setAt j pm.loc nm jv = some j' ∧ DocInv h' root j' := by
+  simp only [setMatchN] at hset
+  split at hset
+  · simp at hset
+  · rename_i last _
+    split at hset
+    · rename_i pm hg
+      split at hset
+      · rename_i h2 m2 hvs
+        simp only [Prod.mk.injEq, Except.ok.injEq] at hset
+        obtain ⟨rfl, rfl⟩ := hset
+        have hgen := getMatch_gen_src (wcx h) (heapwf_keysUniq hi.wf) _ root (.nested sm) hsm true pm hg
+        have hw := gen_walk (hview h) root pm hgen
+        obtain ⟨nm, j', e1, e2, e3, e4, _⟩ :=
+          vertexSet_refold h h2 last pm m2 v root j jv hvs hi.unf hi.sep hv hvn hfresh hw
+        exact ⟨pm, nm, j', e1, e2, ⟨e3, e4, vertexSet_wf hi.wf last pm m2 v hvs⟩⟩
+      · simp at hset
+    · simp at hset
+    · split at hset <;> simp at hset
+
 /-- … with the value loaded into the store just before (what every caller passing a JSON
 value does): nothing is assumed about it but unique keys -/
 theorem set_fresh_refines (stepsOf : Heap → List (Step Val)) (root : Val) (j jv : J) (n : Nat) (h h' : Heap)
